@@ -174,7 +174,7 @@ class Harness:
         return {"k": "delete", "in": name, "exc": "", "disk": self.disk()}
 
 
-CFG_T = """CONSTANTS Inputs = %(Inputs)s SmallInputs = %(Small)s NCols = 2 Workers = {1} HasInline = %(HasInline)s MaxCalls = 0 MaxFaults = 0
+CFG_T = """CONSTANTS Inputs = %(Inputs)s SmallInputs = %(Small)s NCols = 2 Workers = {1} HasInline = %(HasInline)s MaxCalls = 0 MaxFaults = 0 PersistentPool = FALSE
 SPECIFICATION TraceSpec
 INVARIANT Report
 POSTCONDITION TraceDone
